@@ -614,7 +614,7 @@ def check_variant(P, b, h, blks, tab):
             if not var:
                 continue
             # every back edge is dominated by an increment (saturating_add(x, c>0)) of one of the variables, and the loop test compares a variable with a length
-            tested = _loop_tested_vars(b, h, blks, var)
+            tested = _loop_tested_vars(b, h, blks, var, S)
             incs = []
             for v in sorted(tested):
                 for (db, dj, full) in S.defs().get(v, []):
@@ -684,13 +684,22 @@ def _slice_advance(P, b, S, term, v, e):
     return False
 
 
-def _loop_tested_vars(b, h, blks, var):
+def _loop_tested_vars(b, h, blks, var, S=None):
     """variables of `var` compared (Lt/Le/Gt/Ge) with a length in a test that can leave the loop"""
     out = set()
     for x in sorted(blks):
         t = b.blocks[x]["t"]
         if t["k"] != "switch" or all(s in blks for s in b.succs(x)):
             continue
+        # `while let Some(x) = list.get(i)`: leaves the loop exactly when `i >= list.len()`
+        if S is not None:
+            be = T.branch_edges(b, S, x)
+            if be is not None and be[0][0] == "variant":
+                src = T.strip(be[0][1])
+                if src[0] == "call" and src[1].endswith("::get") and ("[T]" in src[1] or "slice::" in src[1]) and len(src[2]) == 2:
+                    for y in T.walk(src[2][1]):
+                        if y[0] in ("loopvar", "local") and y[1] in var:
+                            out.add(y[1])
         for st in b.blocks[x]["s"]:
             if st["k"] == "assign" and st["r"]["k"] == "binop" and st["r"]["op"] in ("Lt", "Le", "Gt", "Ge"):
                 roots, haslen = set(), False
@@ -770,7 +779,13 @@ def _origin_class(t, depth=0):
             return "param"
         return "field-of:" + x[0]
     if t[0] == "call":
-        return "call:" + T.short(t[1]).rsplit("::", 1)[-1]
+        last = T.short(t[1]).rsplit("::", 1)[-1]
+        if last == "unwrap_or" and len(t[2]) == 2:
+            # `x.unwrap_or(k)` is `match x { Some(v) => v, None => k }`: the payload of x, or k
+            x = T.strip(t[2][0])
+            a = ("payload:" + T.short(x[1]).rsplit("::", 1)[-1]) if x[0] == "call" else "field-of:" + x[0]
+            return "phi(" + ",".join(sorted({a, _origin_class(t[2][1], depth + 1)})) + ")"
+        return "call:" + last
     if t[0] == "agg":
         return "%s(%s)" % ((t[2] or t[1]).rsplit("::", 1)[-1], ",".join(_origin_class(x, depth + 1) for x in t[4]))
     if t[0] == "phi":
